@@ -1209,6 +1209,43 @@ def first_effect_block(body, start, env=None, limit=40):
     return bi
 
 
+def threaded_successors(body):
+    """non-cleanup successors per block, with jumps threaded through constant flags: a block that ends by giving a bool local a literal
+    value and joining a `switch` on that local (`let reused = 'l: { ..; true }; if !reused { .. }`) continues, for a forward dataflow,
+    at the arm that value selects - the joined state of the other arm never reaches it.  Only blocks that do nothing but shuffle
+    such constants are skipped (first_effect_block)."""
+    k = "threaded_succ"
+    if k in body._cache:
+        return body._cache[k]
+    cfg = cfg_of(body)
+    out = {}
+    for bi, blk in enumerate(body.blocks):
+        if blk["cleanup"]:
+            continue
+        env = {}
+        for st in blk["stmts"]:
+            if st["k"] == "assign" and not st["pl"]["p"]:
+                if st["rv"]["k"] == "use" and st["rv"]["op"]["k"] == "const" and "v" in st["rv"]["op"] and body.locals[st["pl"]["l"]]["ty"] == "bool":
+                    env[st["pl"]["l"]] = st["rv"]["op"]["v"]
+                else:
+                    env.pop(st["pl"]["l"], None)
+        t = blk["term"]
+        if t["k"] == "call" and isinstance(t.get("dest"), dict) and not t["dest"]["p"]:
+            env.pop(t["dest"]["l"], None)
+        succ = []
+        for d in cfg.succ[bi]:
+            if body.blocks[d]["cleanup"]:
+                continue
+            d2 = first_effect_block(body, d, env) if env else d
+            if body.blocks[d2]["cleanup"]:
+                d2 = d
+            if d2 not in succ:
+                succ.append(d2)
+        out[bi] = succ
+    body._cache[k] = out
+    return out
+
+
 def normalize_cmp(c, v):
     """turn (cond_expr, ('eq', value)) into a relation tuple (rel, A, B) with rel in
     {'lt','le','eq','ne'} (A rel B), or ('truth', expr, value). Handles negation of comparisons,
